@@ -255,7 +255,7 @@ def run(ctx):
         ctx.case("replay2")
         return
     for i in range(n):
-        fam = families.pick(ctx.rng, ["dag", "dag-fallback", "gated", "loop", "waitdag", "waitdag", "rewait"])
+        fam = families.pick(ctx.rng, ["dag", "dag-fallback", "gated", "loop", "waitdag", "waitdag", "rewait", "lateclosed"])
         spec, inputs, kw = fam["spec"], fam["inputs"], fam.get("kw", {})
         _one(ctx, fam, spec, inputs, kw, None)
         # one failing node per program (error collected)
